@@ -935,7 +935,7 @@ func ruleLocks(structs ...string) ruleFn {
 					continue
 				}
 				// construction: the struct was allocated in this function
-				if al, isAl := fa.X.(*ssa.Alloc); isAl && al.Parent() == fn {
+				if freshObject(fn, fa.X, 0) {
 					continue
 				}
 				if isMutexType(f.Type()) {
